@@ -952,7 +952,7 @@ Fixpoint gbp_loop_x (fx : fixes) (S : schema) (buf : list Z) (p : list pstep) (r
     | PIndex i =>
       match lbl with
       | LRepeated _ =>
-        after buf (search_index_x fx buf rd i (elem_wt t) (type_numeric t) num) lbl t num (kind_of_type t)
+        after buf (search_index_x fx buf rd i (elem_wt t) (desc_packed lbl t) num) lbl t num (kind_of_type t)
       | _ => GUnmodelled
       end
     | PStrKey k =>
@@ -1178,13 +1178,15 @@ Proof.
          pose proof (ctag_inb buf' Hb' rd1 _ _ _ (sfi_found_inb _ _ _ _ _ _ _ Hb' Hi' Hr) Hct); lia ]).
   - (* PIndex *)
     destruct lbl as [|q|kk]; try reflexivity.
-    assert (H702 : f702 fx = true -> i = 0 -> type_numeric t = false ->
+    assert (H702 : f702 fx = true -> i = 0 -> desc_packed (LRepeated q) t = false ->
                    plen (varint_enc (num * 8 + elem_wt t)) <= rd).
     { intros _ _ _. destruct (Htag eq_refl eq_refl) as ((rd_t & v & n & Hrt & Hcv & Hv & ->) & Hnum).
       pose proof (tag_len_le buf rd_t v n num (elem_wt t) Hb Hrt Hcv Hv Hnum (elem_wt_range t)). lia. }
-    rewrite (si_x_eq buf rd i (elem_wt t) (type_numeric t) num Hb Hrd (numeric_wt_progress t) H702).
+    assert (Hprog : desc_packed (LRepeated q) t = true -> wt_progress (elem_wt t)).
+    { intros Hp. cbn [desc_packed] in Hp. apply andb_prop in Hp. apply numeric_wt_progress. exact (proj2 Hp). }
+    rewrite (si_x_eq buf rd i (elem_wt t) (desc_packed (LRepeated q) t) num Hb Hrd Hprog H702).
     apply Hafter; [assumption|]. intros start rd1 Hr. split.
-    + pose proof (search_index_inb buf Hb fx rd i (elem_wt t) (type_numeric t) num Hrd H702) as H.
+    + pose proof (search_index_inb buf Hb fx rd i (elem_wt t) (desc_packed (LRepeated q) t) num Hrd H702) as H.
       rewrite Hr in H. cbn [sres_unpacked] in H. unfold inb. tauto.
     + intros Hh. rewrite Hs in Hh. discriminate.
   - (* PStrKey *)
